@@ -17,13 +17,21 @@ pub enum Scanner {
 #[derive(Copy, Clone, Debug)]
 pub struct Inst {
     pub sc: Scanner,
+    /// the real reading of the mock clock (ms); may be astronomically large
     pub now: u64,
+    /// the clock as the specification sees it (ms): every single time step is capped at
+    /// `SPEC_TICK_CAP`, which exceeds every finite timeout in use - the specification only
+    /// compares differences of time with timeouts, so both clocks give the same verdicts, and
+    /// TLC's 32-bit integers are never exceeded
+    pub snow: u64,
     /// timeout in half-milliseconds, negative = (effectively) infinite, see `duration_of`
     pub to: i64,
 }
 
 /// `to`: timeout in HALF milliseconds (so that 2.5 ms can be said); -1 = Duration::MAX;
 /// -(k) for k in 2..=63 = Duration::from_secs(1 << k), "effectively infinite" for any trace.
+pub const SPEC_TICK_CAP: u64 = 10_000_000;
+
 pub fn duration_of(to: i64) -> Duration {
     if to == -1 {
         Duration::MAX
@@ -39,6 +47,12 @@ pub struct CallResult {
     pub gap: bool,
     pub allocs: u64,
     pub panicked: bool,
+}
+
+impl CallResult {
+    pub fn same_as(&self, o: &CallResult) -> bool {
+        self.out == o.out && self.gap == o.gap && self.allocs == o.allocs && self.panicked == o.panicked
+    }
 }
 
 impl Inst {
@@ -61,7 +75,18 @@ impl Inst {
             }),
             _ => panic!("unknown scanner kind {kind}"),
         };
-        Inst { sc, now: 0, to }
+        Inst { sc, now: 0, snow: 0, to }
+    }
+
+    /// A copy made through `Clone::clone` of the scanner type itself (not the bitwise `Copy`).
+    #[allow(clippy::clone_on_copy)]
+    pub fn cloned(&self) -> Inst {
+        let sc = match &self.sc {
+            Scanner::Cc14(s) => Scanner::Cc14(Clone::clone(s)),
+            Scanner::Pn(s) => Scanner::Pn(Clone::clone(s)),
+            Scanner::Poll(s) => Scanner::Poll(Clone::clone(s)),
+        };
+        Inst { sc, ..*self }
     }
 
     pub fn kind(&self) -> &'static str {
